@@ -153,22 +153,7 @@ class Interp:
         out = set()
         # constructor helpers: methods whose every mention (self.m, Class.m) sits in an __init__ or in another such helper - they
         # run as part of the constructor chain and nowhere else
-        mentions_of = {}
-        for f in self.prog.funcs.values():
-            for n in ast.walk(f.node):
-                if isinstance(n, ast.Attribute):
-                    mentions_of.setdefault(n.attr, set()).add(f.name if f.parent is None else "<nested>")
-        helpers = set()
-        changed = True
-        while changed:
-            changed = False
-            for f in self.prog.funcs.values():
-                if f.cls is None or f.parent is not None or f.name in helpers or f.name.startswith("__"):
-                    continue
-                users = mentions_of.get(f.name)
-                if users and all(u == "__init__" or u in helpers for u in users):
-                    helpers.add(f.name)
-                    changed = True
+        helpers = self.prog.constructor_helpers()
         self.constructor_helpers = helpers
         for f in self.prog.funcs.values():
             if f.name == "__init__" or (f.cls is not None and f.parent is None and f.name in helpers):
